@@ -1,4 +1,5 @@
 import Gaftools.Props.C12
+import Gaftools.Props.C12b
 import Gaftools.Props.TieA2
 #print axioms Gaftools.C12.cigarValid_iff
 #print axioms Gaftools.C12.aligns_lengths
@@ -9,3 +10,7 @@ import Gaftools.Props.TieA2
 #print axioms Gaftools.C12.passthrough
 #print axioms Gaftools.C12.realign_record
 #print axioms Gaftools.TieA.passThrough_gen
+#print axioms Gaftools.C12.optCost_le
+#print axioms Gaftools.C12.optAlign_aligns
+#print axioms Gaftools.C12.optAlign_cost
+#print axioms Gaftools.C12.contract_satisfiable
